@@ -204,3 +204,100 @@ Theorem C19_ex_ili_links :
 Proof. exact (@ex_ili_links). Qed.
 Print Assumptions C19_ex_ili_links.
 
+Require Import WnV.Model.IliFile WnV.Proofs.IliFileProofs.
+(* ---- the text layer of wn._ili.load (Model/IliFile.v: universal newlines, rstrip of the line end, split at tabs): rows written one per line with tab-separated fields are read back as exactly those rows, for LF, CR LF and lone CR line ends, with or without a final line end; nothing but code points 9, 10 and 13 separates anything, so a definition may contain U+2028, U+2029, U+0085, form feed, vertical tab and the C0 separators (at which str.splitlines() would cut it); add_ili_text (the whole of wn.add for an ILI file, from the decoded text) is add_ili of the rows *)
+Theorem C19_split_tab_join :
+  forall fs : list str,
+         fs <> [] -> Forall (fun f : list Z => ~ In 9 f) fs -> split_tab (join_tab fs) = fs.
+Proof. exact (@split_tab_join). Qed.
+Print Assumptions C19_split_tab_join.
+
+Theorem C19_file_lines_render_eol :
+  forall e : str,
+         eol e ->
+         forall ls : list str,
+         Forall line_ok ls -> map rstrip_crlf (file_lines (render_lines e ls)) = ls.
+Proof. exact (@file_lines_render_eol). Qed.
+Print Assumptions C19_file_lines_render_eol.
+
+Theorem C19_file_lines_render_eol_nofinal :
+  forall e : str,
+         eol e ->
+         forall (ls : list str) (last : str),
+         Forall line_ok ls ->
+         line_ok last ->
+         last <> [] ->
+         map rstrip_crlf (file_lines (render_lines e ls ++ last)%list) = (ls ++ [last])%list.
+Proof. exact (@file_lines_render_eol_nofinal). Qed.
+Print Assumptions C19_file_lines_render_eol_nofinal.
+
+Theorem C19_ili_file_lines_render_eol :
+  forall e : str,
+         eol e ->
+         forall rows : list (list str),
+         Forall (fun row : list str => row <> [] /\ Forall field_ok row) rows ->
+         ili_file_lines (render_with e rows) = rows.
+Proof. exact (@ili_file_lines_render_eol). Qed.
+Print Assumptions C19_ili_file_lines_render_eol.
+
+Theorem C19_ili_file_lines_render :
+  forall rows : list (list str),
+         Forall
+           (fun row : list (list Z) =>
+            row <> [] /\ Forall (fun f : list Z => ~ In 9 f /\ ~ In 10 f /\ ~ In 13 f) row) rows ->
+         ili_file_lines (render rows) = rows.
+Proof. exact (@ili_file_lines_render). Qed.
+Print Assumptions C19_ili_file_lines_render.
+
+Theorem C19_add_ili_text_render :
+  forall (d : db) (rows : list (list str)),
+         Forall
+           (fun row : list (list Z) =>
+            row <> [] /\ Forall (fun f : list Z => ~ In 9 f /\ ~ In 10 f /\ ~ In 13 f) row) rows ->
+         add_ili_text d (render rows) = add_ili d rows.
+Proof. exact (@add_ili_text_render). Qed.
+Print Assumptions C19_add_ili_text_render.
+
+Theorem C19_ili_file_lines_nil :
+  ili_file_lines [] = [].
+Proof. exact (@ili_file_lines_nil). Qed.
+Print Assumptions C19_ili_file_lines_nil.
+
+Theorem C19_add_ili_text_nil :
+  forall d : db, add_ili_text d [] = OtherError.
+Proof. exact (@add_ili_text_nil). Qed.
+Print Assumptions C19_add_ili_text_nil.
+
+Theorem C19_just_newline :
+  ili_file_lines [10] = [[[]]].
+Proof. exact (@just_newline). Qed.
+Print Assumptions C19_just_newline.
+
+Theorem C19_other_separators_kept :
+  ili_file_lines (render [other_seps_row]) = [other_seps_row] /\
+         file_lines (render [other_seps_row]) = [(join_tab other_seps_row ++ [10])%list].
+Proof. exact (@other_separators_kept). Qed.
+Print Assumptions C19_other_separators_kept.
+
+Theorem C19_crlf_and_cr :
+  let text :=
+           [105; 108; 105; 9; 115; 116; 97; 116; 117; 115; 13; 10; 105; 49; 9; 97; 99; 116; 105; 118;
+            101; 13; 105; 50; 9] in
+         file_lines text =
+         [[105; 108; 105; 9; 115; 116; 97; 116; 117; 115; 10];
+          [105; 49; 9; 97; 99; 116; 105; 118; 101; 10]; [105; 50; 9]] /\
+         ili_file_lines text =
+         [[[105; 108; 105]; [115; 116; 97; 116; 117; 115]];
+          [[105; 49]; [97; 99; 116; 105; 118; 101]]; [[105; 50]; []]].
+Proof. exact (@crlf_and_cr). Qed.
+Print Assumptions C19_crlf_and_cr.
+
+Theorem C19_python_agreement :
+  file_lines [97; 13; 13; 10; 10; 13] = [[97; 10]; [10]; [10]; [10]] /\
+         file_lines [97; 10; 13; 98] = [[97; 10]; [10]; [98]] /\
+         file_lines [13] = [[10]] /\
+         rstrip_crlf [97; 10; 13; 10] = [97] /\
+         rstrip_crlf [13; 97; 10; 98] = [13; 97; 10; 98] /\
+         split_tab [97; 9; 9; 98; 9] = [[97]; []; [98]; []] /\ split_tab [] = [[]].
+Proof. exact (@python_agreement). Qed.
+Print Assumptions C19_python_agreement.
